@@ -36,3 +36,16 @@ Proof. exact or_leaves_c_no_or. Qed.
 Print Assumptions C11_operands.
 Print Assumptions C11_producer_is_real.
 Print Assumptions C11_args_length.
+
+(* ------------------------------------------------------------------------------------------------------------
+   Extension (second round): "a comparison is attributed to a transaction field only if that field really is its
+   operand" -- the reconstructed operand that matches a key denotes that field of the transaction the key names *)
+From Coq Require Import String NArith.
+From Tealer Require Import Keys Eval SingleLemmas.
+
+Theorem C11_attribution_only_if_real_operand : forall e fam fld v x t,
+  value_matches (e_intcs e) fam fld v = true -> sv_eval e v = Some x -> key_txn e fam = Some t ->
+  x = field_of e t fld.
+Proof. exact classify_correct. Qed.
+
+Print Assumptions C11_attribution_only_if_real_operand.
